@@ -39,7 +39,8 @@ def replay_trace(EoReader, data, calls):
                 readers.append(nr)
                 ret, exc = len(readers), ""
             except Exception as e:
-                ret, exc = 0, type(e).__name__
+                from ..wire import exc_class
+                ret, exc = 0, exc_class(e)
         else:
             ret, exc = do_read(r, c)
         obs.append({"ret": ret, "exc": exc, "proj": _proj(readers)})
